@@ -372,7 +372,8 @@ def run(ck):
     ck.ob("R5", "Jitter.__init__:installs", ok, jl.where(init), "Jitter.__init__ does not install the default exception handlers")
 
     # ------------------------------------------------------------------ R6
-    fn = jc.func("JitCore.del_block_in_range")
+    from sa.prenorm import inline_helpers
+    fn = inline_helpers(jc.func("JitCore.del_block_in_range"), jc.methods("JitCore"))
     body = ast.Module(body=fn.body, type_ignores=[])
     dels_func = [n for n in ast.walk(body) if (isinstance(n, ast.Delete) and any(
         isinstance(t, ast.Subscript) and dotted(t.value) == "self.offset_to_jitted_func" for t in n.targets)) or
